@@ -1,4 +1,5 @@
 import BHS.Props.C02
+import BHS.Props.SqlShape
 open BHS.Props.C02
 #print axioms lcUnique_of_inv
 #print axioms verifyHash_some
@@ -12,3 +13,4 @@ open BHS.Props.C02
 #print axioms C02_aggregate
 #print axioms C02_tracks_reorg_off
 #print axioms C02_tracks_reorg_on
+#print axioms BHS.Props.SqlShape.verify_statements
